@@ -90,3 +90,47 @@ for label, cases, strict, n_enum in FAMILY:
              requires=[], cover=["returned", "raised"],
              notes=[f"Literal configuration: cases={cases!r} strict={strict} enum_loaders={n_enum}"],
              consts={"basic_cases": basic, "allowed": cases})
+
+
+# ================================================================================================ Literal DUMPERS
+# Documented: "Enum instances will be dumped via its dumpers, bytes instances via its dumpers as well" — everything else is a plain
+# literal value and passes as is.  The closures are reached through the real factory methods; the enum / bytes dumpers are arbitrary
+# callables (DUMP discipline), the datum ranges over D (the IntEnum cell, both bytes cells and everything else).
+from pyvc.universe import rep_class, CELL_INDEX  # noqa: E402
+
+_IntE = rep_class(CELL_INDEX["intenum"])
+IS_ENUM = "py(lambda d: isinstance(d, Enum), data)"
+IS_BYTES = "py(lambda d: isinstance(d, bytes), data)"
+LD_CP = {"as-is": ["C02", "C01"], "enum-by-enum-dumper": ["C02", "C01"], "bytes-by-bytes-dumper": ["C02", "C01"],
+         "error-is-the-dumpers": ["C02"], "modifies-nothing": ["C20"]}
+
+contract(F, "LiteralProvider._get_bytes_literal_dumper.<locals>.literal_dumper_with_bytes", props=["C02", "C01", "C20"],
+         via=Via("LiteralProvider._get_bytes_literal_dumper", {"": lambda m: m.LiteralProvider()}, args={"bytes_dumper": "DUMP"}),
+         params={"data": "D"},
+         post={"as-is": f"implies(not {IS_BYTES}, returned and result is data)",
+               "bytes-by-bytes-dumper": f"implies({IS_BYTES}, returned == ok(bytes_dumper, data) and implies(returned, result == res(bytes_dumper, data)))",
+               "error-is-the-dumpers": "implies(raised, is_err(exc, bytes_dumper, data))"},
+         clause_props=LD_CP, cover=["returned", "raised"])
+
+# one enum class: its dumper for every Enum instance
+contract(F, "LiteralProvider._get_enum_dumper.<locals>.literal_dumper_with_single_enum", props=["C02", "C01", "C20"],
+         via=Via("LiteralProvider._get_enum_dumper", {"": lambda m: m.LiteralProvider()},
+                 args={"enum_dumpers": ("const", {_IntE: (lambda d: ("dumped-enum", d))})}),
+         params={"data": "D"}, consts={"STUB": (lambda d: ("dumped-enum", d))},
+         post={"as-is": f"implies(not {IS_ENUM}, returned and result is data)",
+               "enum-by-enum-dumper": f"implies({IS_ENUM}, returned and py(lambda d, r: r == STUB(d), data, result))"},
+         clause_props=LD_CP, cover=["returned"])
+
+
+class _OtherE(enum.Enum):
+    Z = "z"
+
+
+# several enum classes: the dumper registered for the class of the datum
+contract(F, "LiteralProvider._get_enum_dumper.<locals>.literal_dumper_with_enums", props=["C02", "C01", "C20"],
+         via=Via("LiteralProvider._get_enum_dumper", {"": lambda m: m.LiteralProvider()},
+                 args={"enum_dumpers": ("const", {_OtherE: (lambda d: ("wrong-class", d)), _IntE: (lambda d: ("dumped-enum", d))})}),
+         params={"data": "D"}, consts={"STUB": (lambda d: ("dumped-enum", d))},
+         post={"as-is": f"implies(not {IS_ENUM}, returned and result is data)",
+               "enum-by-enum-dumper": f"implies({IS_ENUM}, returned and py(lambda d, r: r == STUB(d), data, result))"},
+         clause_props=LD_CP, cover=["returned"])
